@@ -1,6 +1,8 @@
 import CobyqaVerif.Model.Filter
 import CobyqaVerif.Model.SpecC03
 import CobyqaVerif.Model.Run
+import CobyqaVerif.Model.Settings
+import CobyqaVerif.Gen.Settings
 /-!
 Line-protocol driver: `lake env lean --run Driver.lean < requests > answers`.
 One request per line, first token = component.  Floats travel as decimal UInt64 bit patterns.
@@ -146,11 +148,93 @@ def doRun (hdr : List String) (body : String) : String :=
   | _ => "bad-op"
 end runs
 
+/-! ## options and constants (C19) -/
+section settings
+open Cobyqa
+
+def genFloat (tab : List (String × Gen.Default)) (name : String) : Float :=
+  match (tab.find? (·.1 = name)).map (·.2) with
+  | some (Gen.Default.float b) => fl b
+  | _ => 0.0 / 0.0
+def genLin (tab : List (String × Gen.Default)) (name : String) : Nat × Nat :=
+  match (tab.find? (·.1 = name)).map (·.2) with
+  | some (Gen.Default.lin a b) => (a, b)
+  | _ => (0, 0)
+def genInt (tab : List (String × Gen.Default)) (name : String) : Nat :=
+  match (tab.find? (·.1 = name)).map (·.2) with
+  | some (Gen.Default.int a) => a
+  | _ => 0
+
+def optDefaultsF : OptDefaults Float :=
+  let g := genFloat Gen.defaultOptions
+  { radius_init := g "radius_init", radius_final := g "radius_final", target := g "target",
+    feasibility_tol := g "feasibility_tol",
+    maxfevA := (genLin Gen.defaultOptions "maxfev").1, maxfevB := (genLin Gen.defaultOptions "maxfev").2,
+    maxiterA := (genLin Gen.defaultOptions "maxiter").1, maxiterB := (genLin Gen.defaultOptions "maxiter").2,
+    nptA := (genLin Gen.defaultOptions "nb_points").1, nptB := (genLin Gen.defaultOptions "nb_points").2,
+    filter_size := genInt Gen.defaultOptions "filter_size", history_size := genInt Gen.defaultOptions "history_size" }
+
+def constDefaultsF : Consts Float :=
+  let g := genFloat Gen.defaultConstants
+  { decrease_radius_factor := g "decrease_radius_factor", increase_radius_factor := g "increase_radius_factor",
+    increase_radius_threshold := g "increase_radius_threshold", decrease_radius_threshold := g "decrease_radius_threshold",
+    decrease_resolution_factor := g "decrease_resolution_factor", large_resolution_threshold := g "large_resolution_threshold",
+    moderate_resolution_threshold := g "moderate_resolution_threshold", low_ratio := g "low_ratio", high_ratio := g "high_ratio",
+    very_low_ratio := g "very_low_ratio", penalty_increase_threshold := g "penalty_increase_threshold",
+    penalty_increase_factor := g "penalty_increase_factor", short_step_threshold := g "short_step_threshold",
+    low_radius_factor := g "low_radius_factor", byrd_omojokun_factor := g "byrd_omojokun_factor",
+    threshold_ratio_constraints := g "threshold_ratio_constraints", large_shift_factor := g "large_shift_factor",
+    large_gradient_factor := g "large_gradient_factor", resolution_factor := g "resolution_factor" }
+
+def optF (s : String) : Option (Option Float) := if s = "-" then some none else s.toNat?.map fun b => some (fl b)
+def optI (s : String) : Option (Option Int) := if s = "-" then some none else (intOf s).map some
+
+/-- `opts n rb re npt maxfev maxiter target ftol hsize fsize` (`-` = absent) -/
+def doOpts (toks : List String) : String :=
+  match toks with
+  | [n, rb, re, npt, mf, mi, tg, ft, hs, fs] =>
+    match n.toNat?, optF rb, optF re, optI npt, optI mf, optI mi, optF tg, optF ft, optI hs, optI fs with
+    | some n, some rb, some re, some npt, some mf, some mi, some tg, some ft, some hs, some fs =>
+      match setDefaultOptions optDefaultsF n ⟨rb, re, npt, mf, mi, tg, ft, hs, fs⟩ with
+      | .error m => "err " ++ m
+      | .ok r =>
+        let v := if r.valid n then 1 else 0
+        s!"ok {bits r.radius_init} {bits r.radius_final} {r.nb_points} {r.maxfev} {r.maxiter} {bits r.target} {bits r.feasibility_tol} {r.history_size} {r.filter_size} valid={v}"
+    | _, _, _, _, _, _, _, _, _, _ => "bad-op"
+  | _ => "bad-op"
+
+/-- `consts v1 ... v19` in the order of the `Consts` structure (`-` = absent) -/
+def doConsts (toks : List String) : String :=
+  match toks.mapM optF with
+  | some [a1, a2, a3, a4, a5, a6, a7, a8, a9, a10, a11, a12, a13, a14, a15, a16, a17, a18, a19] =>
+    match setDefaultConstants constDefaultsF ⟨a1, a2, a3, a4, a5, a6, a7, a8, a9, a10, a11, a12, a13, a14, a15, a16, a17, a18, a19⟩ with
+    | .error m => "err " ++ m
+    | .ok r =>
+      let l := [r.decrease_radius_factor, r.increase_radius_factor, r.increase_radius_threshold, r.decrease_radius_threshold,
+        r.decrease_resolution_factor, r.large_resolution_threshold, r.moderate_resolution_threshold, r.low_ratio, r.high_ratio,
+        r.very_low_ratio, r.penalty_increase_threshold, r.penalty_increase_factor, r.short_step_threshold, r.low_radius_factor,
+        r.byrd_omojokun_factor, r.threshold_ratio_constraints, r.large_shift_factor, r.large_gradient_factor, r.resolution_factor]
+      "ok " ++ " ".intercalate (l.map fun x => toString (bits x)) ++ (if r.valid then " valid=1" else " valid=0")
+  | _ => "bad-op"
+
+/-- `minpts n npt` -/
+def doMinPts (toks : List String) : String :=
+  match toks with
+  | [n, p] =>
+    match n.toNat?, intOf p with
+    | some n, some p => match minPointsCheck n p with | .error m => "err " ++ m | .ok _ => "ok"
+    | _, _ => "bad-op"
+  | _ => "bad-op"
+end settings
+
 def handle (line : String) : String :=
   match line.splitOn "|" with
   | [h, v] =>
     match (h.splitOn " ").filter (· ≠ "") with
     | "run" :: args => doRun args v
+    | "opts" :: args => doOpts args
+    | "consts" :: args => doConsts args
+    | "minpts" :: args => doMinPts args
     | cmd :: args =>
       match args.mapM String.toNat?, parseNats v with
       | some hdr, some vals =>
